@@ -541,24 +541,19 @@ def best_sizes_assembly(ck, rule_asm, rule_cap, rule_search):
         ck.ok(rule_asm, f, "size assembly: n_frac = min(limit - sign - n_int, exact) and minimal word on all %d value paths" % n_asm)
     if not [k for k in seen if k[0] == rule_cap]:
         ck.ok(rule_cap, f, "word cap min(n_word, n_word_max) precedes the argument-less closing resize on every path")
-    # ---- search arithmetic: n_int search uses integer shifts/comparisons only
+    # ---- search arithmetic: the integer-length search is a bit-shift loop, no logarithm anywhere in the size inference
+    from ..common import walk_closure
     floaty = []
-    for n in ast.walk(f.node):
-        if isinstance(n, ast.While):
-            names = {x.id for x in ast.walk(n.test) if isinstance(x, ast.Name)}
-            if "n_int" in names:
-                for c in calls_in(n):
-                    if dotted(c.func) in ("np.log2", "math.log2", "np.log", "math.log", "np.ceil", "np.floor", "math.ceil"):
-                        floaty.append(c)
-    for n in ast.walk(f.node):
-        if isinstance(n, ast.Assign) and any(isinstance(t, ast.Name) and t.id == "n_int" for t in n.targets):
-            for c in calls_in(n.value):
-                if dotted(c.func) in ("np.log2", "math.log2", "np.log", "math.log"):
-                    floaty.append(c)
+    shift_loops = 0
+    for g_, n in walk_closure(prog, f):
+        if isinstance(n, ast.Call) and dotted(n.func) in ("np.log2", "math.log2", "np.log", "math.log", "np.log10", "math.log10"):
+            # Decimal precision estimate lives in the normaliser, not here
+            floaty.append(n)
+        if isinstance(n, ast.While) and any(isinstance(x, ast.BinOp) and isinstance(x.op, ast.RShift) for x in ast.walk(n)):
+            shift_loops += 1
     ck.check(not floaty, rule_search, f, "the integer-length search is exact integer arithmetic (shifts and comparisons, no logarithm)", "uses %s" % (src(floaty[0])[:60] if floaty else ""), floaty[0] if floaty else None,
              "log2 of a double rounds at powers of two near 2^48..2^53: the word comes out one bit short")
-    has_while = any(isinstance(n, ast.While) and "n_int" in {x.id for x in ast.walk(n.test) if isinstance(x, ast.Name)} for n in ast.walk(f.node))
-    ck.check(has_while, rule_search, f, "the integer length is found by the bit-shift search loop", "no search loop over n_int", f.node)
+    ck.check(shift_loops >= 1, rule_search, f, "the integer length is found by the bit-shift search loop", "no shift-based search loop in the size inference", f.node)
 
 
 def word_max_chain(ck, rule):
